@@ -27,7 +27,9 @@ RULE = ("cases: dom = (cone with integer/dyadic rows, dyadic-lattice pair a,b) w
         "small lattices of difference vectors per cone in chunks of 64; laws = "
         "(a,b,c,t,s) chains built from cone elements; ctor2d = theta in 1..179 (int and float, both branches, "
         "exactly 90) + random theta, with probe directions; ctor3d = the three kinds; ice = K in 3..64 x theta; "
-        "eq = OrderingCone.__eq__ pairs; comp = ComponentwiseOrder(dim 2..5). non-trivial: dom/batch = not all "
+        "eq = OrderingCone.__eq__ pairs; comp = ComponentwiseOrder(dim 2..5); dtype = cone matrix handed to the real "
+        "constructor as int64/int32 array, nested int list, float32 or Fortran-order float64 array with fractional "
+        "quarter-lattice vectors (single, list, batched, float32 inputs). non-trivial: dom/batch = not all "
         "facet values strictly of one sign or a tie present; laws = at least one implication premise true; "
         "ctor* = always (distinct parameters); distinct by the full case")
 ASSUMPTIONS = [
@@ -231,6 +233,50 @@ def _gen_laws(ctx, rng, cname):
             "t": _lat(rng, m, lo=-8, hi=8), "s": rng.choice([0.25, 0.5, 2.0, 3.0, 5.0, 8.0]), "shape": shape}
 
 
+DTYPE_MODES = ["int64", "int32", "pylist", "float32", "float64F"]
+
+
+def _mode_ok(mode, W):
+    integral = all(float(x).is_integer() for r in W for x in r)
+    if mode in ("int64", "int32", "pylist"):
+        return integral
+    if mode == "float32":
+        return all(float(np.float32(x)) == float(x) for r in W for x in r)
+    return True
+
+
+def _frac_vec(rng, m):
+    """quarter-lattice vector with at least one non-integer coordinate (when m allows)"""
+    v = [rng.randint(-12, 12) / 4.0 for _ in range(m)]
+    if all(float(x).is_integer() for x in v):
+        v[rng.randrange(m)] += rng.choice([0.25, 0.5, 0.75])
+    return v
+
+
+def _gen_dtype(rng, cname, mode):
+    W, _ = ALL_CONES[cname]
+    m = len(W[0])
+    A, B = [], []
+    for shape in ["smallneg", "smallpos", "random", "random", "facet", "inside", "scaled"]:
+        a = _frac_vec(rng, m)
+        if shape == "smallneg":      # a - b has every coordinate in (-1, 0): truncation would give 0
+            d = [-rng.choice([0.25, 0.5, 0.75]) for _ in range(m)]
+        elif shape == "smallpos":    # every coordinate in (0, 1)
+            d = [rng.choice([0.25, 0.5, 0.75]) for _ in range(m)]
+        elif shape == "facet":
+            d = [x / 4.0 for x in _on_facet(rng, W, m)]
+        elif shape == "inside":
+            d = [x / 4.0 for x in _cone_element(rng, W, m)]
+        elif shape == "scaled":      # a cone element scaled below 1: scaling invariance under truncation
+            d = [x / 8.0 for x in _cone_element(rng, W, m, tries=20)]
+            d = [round(x * 4) / 4.0 for x in d]
+        else:
+            d = [x - y for x, y in zip(a, _frac_vec(rng, m))]
+        A.append(a)
+        B.append([x - y for x, y in zip(a, d)])
+    return {"kind": "dtype", "cone": cname, "W": W, "mode": mode, "A": A, "B": B}
+
+
 def _probe_offsets(rng, n=6):
     return [rng.uniform(-math.pi, math.pi) for _ in range(n)]
 
@@ -285,6 +331,16 @@ def gen(ctx):
                 chunk = pts[i:i + 64]
                 yield {"kind": "batch", "cone": cname, "W": W, "A": chunk, "B": [[0.0] * m for _ in chunk],
                        "single": [0.0] * m, "shape": "lattice"}
+    # ---- cone matrix given with other dtypes / containers (integer arrays, nested int lists, float32):
+    #      fractional (quarter-lattice) vectors must still be judged by the facet inequalities of W
+    for cname in names:
+        for mode in DTYPE_MODES:
+            if _mode_ok(mode, ALL_CONES[cname][0]) and mine():
+                yield _gen_dtype(rng, cname, mode)
+    for _ in range(ctx.n(250, 20000)):
+        cname = rng.choice(names)
+        modes = [m for m in DTYPE_MODES if _mode_ok(m, ALL_CONES[cname][0])]
+        yield _gen_dtype(rng, cname, rng.choice(modes))
     # ---- OrderingCone.__eq__
     for _ in range(ctx.n(40, 1500)):
         cname = rng.choice(names)
@@ -767,7 +823,86 @@ def _run_comp(ctx, case):
     ctx.case_done(case, True, canon=["comp", dim])
 
 
-_RUN = {"dom": _run_dom, "batch": _run_batch, "laws": _run_laws, "ctor2d": _run_ctor2d, "ctor3d": _run_ctor3d,
+_dtype_cache = {}
+
+
+def _order_with_dtype(mode, W):
+    """PolyhedralConeOrder(OrderingCone(W given as <mode>)) by the real constructors (cached)"""
+    from vopy.order import PolyhedralConeOrder
+    from vopy.ordering_cone import OrderingCone
+
+    key = (mode, tuple(tuple(float(x) for x in r) for r in W))
+    if key not in _dtype_cache:
+        if mode == "int64":
+            arg = np.array([[int(x) for x in r] for r in W], dtype=np.int64)
+        elif mode == "int32":
+            arg = np.array([[int(x) for x in r] for r in W], dtype=np.int32)
+        elif mode == "pylist":
+            arg = [[int(x) for x in r] for r in W]
+        elif mode == "float32":
+            arg = np.array(W, dtype=np.float32)
+        elif mode == "float64F":
+            arg = np.asfortranarray(np.array(W, dtype=np.float64))
+        else:
+            raise RuntimeError(f"unknown dtype mode {mode}")
+        _dtype_cache[key] = PolyhedralConeOrder(OrderingCone(arg))
+    return _dtype_cache[key]
+
+
+def _run_dtype(ctx, case):
+    W, mode = case["W"], case["mode"]
+    m = len(W[0])
+    ctx.count("dtype_mode_" + mode)
+    try:
+        order = _order_with_dtype(mode, W)
+    except Exception as e:
+        ctx.violation("dtype-ctor-crash:" + core.exc_key(e),
+                      f"OrderingCone(W as {mode}) raised {type(e).__name__}: {e}", case)
+        return
+    cone = order.ordering_cone
+    Wst = np.asarray(cone.W)
+    if Wst.shape != (len(W), m) or [[core.frac(x) for x in r] for r in Wst.tolist()] != \
+            [[core.frac(x) for x in r] for r in W]:
+        ctx.violation("dtype-W", f"OrderingCone(W as {mode}).W differs from the matrix it was given", case, kind="F",
+                      detail={"stored": Wst.tolist()})
+        return
+    ws = core.qmat(Wst.tolist())      # the facet inequalities of the EXPORTED W decide
+    A = np.array(case["A"], dtype=float).reshape(-1, m)
+    B = np.array(case["B"], dtype=float).reshape(-1, m)
+    D = A - B
+    exp = core.parse_bools(_ask(ctx, "domB", ws, core.qmat(A), core.qmat(B)))
+    if core.parse_bools(_ask(ctx, "insideB", ws, core.qmat(D))) != exp:
+        raise RuntimeError("Lean model: domB differs from insideB on the exact differences")
+    n = len(A)
+    try:
+        checks = [
+            ("dominates(A, B) batched", _blist(order.dominates(A.copy(), B.copy()))),
+            ("is_inside(2-D float64 array)", _blist(cone.is_inside(D.copy()))),
+            ("is_inside(list of lists)", _blist(cone.is_inside(D.tolist()))),
+            ("is_inside(2-D float32 array)", _blist(cone.is_inside(D.astype(np.float32)))),
+            ("dominates(a, b) one by one", [_blist(order.dominates(A[i].copy(), B[i].copy()))[0] for i in range(n)]),
+            ("is_inside(list) one by one", [_blist(cone.is_inside(D[i].tolist()))[0] for i in range(n)]),
+            ("is_inside(1-D array) one by one", [_blist(cone.is_inside(D[i].copy()))[0] for i in range(n)]),
+        ]
+    except Exception as e:
+        ctx.violation("dtype-crash:" + core.exc_key(e),
+                      f"dominates/is_inside with W given as {mode} raised {type(e).__name__}: {e}", case)
+        return
+    for what, got in checks:
+        if got != exp:
+            i = next((j for j in range(min(len(got), n)) if got[j] != exp[j]), 0)
+            ctx.violation("dtype-value", f"cone matrix given as {mode}: {what} = {got} but the facet inequalities "
+                          f"W(a-b) >= 0 of the stored W give {exp}", case,
+                          detail={"call": what, "impl": got, "model": exp, "a": A[i].tolist(), "b": B[i].tolist(),
+                                  "facet_values": [str(v) for v in _facet_vals(W, D[i].tolist())]})
+            break
+    frac = bool(np.any(D != np.trunc(D)))
+    if frac:
+        ctx.count("dtype_fractional_difference")
+    ctx.case_done(case, frac, canon=["dtype", mode, W, case["A"], case["B"]])
+
+
+_RUN = {"dtype": _run_dtype, "dom": _run_dom, "batch": _run_batch, "laws": _run_laws, "ctor2d": _run_ctor2d, "ctor3d": _run_ctor3d,
         "ice": _run_ice, "eq": _run_eq, "comp": _run_comp}
 
 
